@@ -75,6 +75,14 @@ func (t *TextT) UnmarshalText(b []byte) error {
 	return nil
 }
 
+// SharedPtr holds ONE *EmbA several times (two fields and two list elements point to the same struct):
+// a value that is a DAG, not a tree, and not a cycle.
+type SharedPtr struct {
+	A *EmbA   `nbt:"a"`
+	B *EmbA   `nbt:"b"`
+	L []*EmbA `nbt:"l"`
+}
+
 type NamedType struct {
 	Type    reflect.Type
 	TD      *TD // underlying descriptor (struct fields or scalar kind)
@@ -101,6 +109,33 @@ func init() {
 	Named["PlainInt"] = &NamedType{Type: reflect.TypeOf(PlainInt(0)), TD: &TD{K: KI32}}
 	Named["MethInt"] = &NamedType{Type: reflect.TypeOf(MethInt(0)), TD: &TD{K: KI64}}
 	Named["MethBytes"] = &NamedType{Type: reflect.TypeOf(MethBytes(nil)), TD: &TD{K: KSlice, Elem: &TD{K: KU8}}}
+	sharedTree := func(vd *VD) *rn.Tag {
+		one := func() *rn.Tag {
+			return &rn.Tag{Type: rn.Compound, K: [][]byte{[]byte("x"), []byte("Y")},
+				V: []*rn.Tag{{Type: rn.Int, I: int64(int32(vd.U))}, {Type: rn.String, S: []byte("shared")}}}
+		}
+		return &rn.Tag{Type: rn.Compound, K: [][]byte{[]byte("a"), []byte("b"), []byte("l")},
+			V: []*rn.Tag{one(), one(), {Type: rn.List, Elem: rn.Compound, L: []*rn.Tag{one(), one()}}}}
+	}
+	Named["SharedPtr"] = &NamedType{Type: reflect.TypeOf(SharedPtr{}), Tag: rn.Compound, TD: &TD{K: KStr},
+		Fill: func(v reflect.Value, vd *VD) {
+			p := &EmbA{X: int32(vd.U), Y: "shared"}
+			v.Set(reflect.ValueOf(SharedPtr{A: p, B: p, L: []*EmbA{p, p}}))
+		},
+		ToTree:  func(vd *VD) (*rn.Tag, error) { return sharedTree(vd), nil },
+		IsEmpty: func(vd *VD) bool { return false },
+		Check: func(vd *VD, got reflect.Value) string {
+			g := got.Interface().(SharedPtr)
+			want := EmbA{X: int32(vd.U), Y: "shared"}
+			if g.A == nil || g.B == nil || len(g.L) != 2 || g.L[0] == nil || g.L[1] == nil {
+				return fmt.Sprintf("SharedPtr %+v: a pointer is missing", g)
+			}
+			if *g.A != want || *g.B != want || *g.L[0] != want || *g.L[1] != want {
+				return fmt.Sprintf("SharedPtr {%+v %+v [%+v %+v]}, want four times %+v", *g.A, *g.B, *g.L[0], *g.L[1], want)
+			}
+			return ""
+		},
+	}
 	Named["TextT"] = &NamedType{Type: reflect.TypeOf(TextT{}), Tag: rn.String,
 		TD: &TD{K: KStr},
 		Fill: func(v reflect.Value, vd *VD) {
